@@ -11,7 +11,9 @@
    `$value`, repeated children must be adjacent; a model of external code, validated on every run
    of the checks against the real deserializer).
    * hypotheses: those of C02 (documents non-empty, `wf_vnode`, common root name,
-     `clash_free_tree e`, `names_plain e`, `data_oriented`) plus, on the inferred tree,
+     `clash_free_tree e`, `names_plain e`, `data_oriented` = beside a child element only blank
+     character data; the known class K3 of C02 does not concern serde-xml-rs, which trims CDATA
+     too: C13_data_oriented_sx) plus, on the inferred tree,
      `attrs_plain e` (no attribute name contains '@' or '$'; true of every XML name),
      `namespace_free e` (no ':' in an element or attribute name, no attribute `xmlns`),
      `attrs_vs_children_names e` (at every node the attribute names are disjoint from the child
@@ -41,6 +43,11 @@ From XSG.Corr Require Import Common Oracles.
 Local Open Scope list_scope.
 
 (* ---------- the additional hypotheses, read ---------- *)
+(* `data_oriented` (C02_data_oriented_reading) gives what the proofs use, `no_text_beside false`
+   (C02_no_text_beside_reading): blank pieces vanish when serde-xml-rs trims the joined run *)
+Theorem C13_data_oriented_sx : forall v, data_oriented v -> no_text_beside false v.
+Proof. exact data_oriented_sx. Qed.
+
 Theorem C13_adjacent_doc_reading : forall n ef attrs ks,
   adjacent_doc (VElem n ef attrs ks) <->
   (forall b, In b (flat_map vkey (eff ef ks)) -> adjacent b (flat_map vkey (eff ef ks)) = true)
@@ -127,7 +134,7 @@ Theorem C13_string_text_held : forall vdocs m e,
     In vd vdocs -> vdoc_root vd = Some nd ->
     de_doc sx_flavour (render_abs serde_xml_rs e) false vd = Some v ->
     StringTypedAt e nd (VElem dn def da dks) ->
-    incl (text_runs (eff def dks)) (leaves v).
+    incl (text_runs false (eff def dks)) (leaves v).
 Proof. exact sx_string_text_held_nsfree. Qed.
 
 (* ---------- the same without namespace-freeness, disjointness on local names ---------- *)
@@ -165,17 +172,17 @@ Theorem C13_string_text_held_local : forall vdocs m e,
     In vd vdocs -> vdoc_root vd = Some nd ->
     de_doc sx_flavour (render_abs serde_xml_rs e) false vd = Some v ->
     StringTypedAt e nd (VElem dn def da dks) ->
-    incl (text_runs (eff def dks)) (leaves v).
+    incl (text_runs false (eff def dks)) (leaves v).
 Proof. exact sx_string_text_held. Qed.
 
-(* tree level: any document whose root the tree admits; `held false false e nd` (C02_held_reading)
+(* tree level: any document whose root the tree admits; `held false false false e nd` (C02_held_reading)
    = the attribute values and the character data of the String-typed elements *)
 Theorem C13_accepts_tree : forall e vd nd,
   clash_free_tree e = true -> names_plain e = true -> attrs_plain e -> attrs_vs_children e ->
   vdoc_root vd = Some nd -> TreeAdmits e (erase_v nd) -> wf_vnode nd -> data_oriented nd ->
   adjacent_doc nd ->
   exists v, de_doc sx_flavour (render_abs serde_xml_rs e) false vd = Some v
-            /\ incl (held false false e nd) (leaves v).
+            /\ incl (held false false false e nd) (leaves v).
 Proof. exact sx_accepts_tree. Qed.
 
 Theorem C13_keys_ok : forall o x,
@@ -235,7 +242,7 @@ Example C13_known_text_dropped :
   match run_dom (map (map erase_v) [k1_doc]) with
   | Some e =>
       let r := de_doc sx_flavour (render_abs serde_xml_rs e) false k1_doc in
-      (r, flat_map doc_values k1_doc, option_map leaves r,
+      (r, flat_map (doc_values false) k1_doc, option_map leaves r,
        option_map (fun l => mem (s "d") l) (option_map leaves r))
   | None => (None, [], None, None)
   end = (Some (FStruct [(s "b", FStr (s "c")); (s "text", FNone)]),
@@ -273,7 +280,7 @@ Theorem C13_value_accepts_holds : forall vdocs m e,
   attrs_plain e -> attrs_vs_children e -> Forall (Forall adjacent_doc) vdocs ->
   forall deny vd, In vd vdocs ->
     exists v, de_doc sx_flavour (render_abs serde_xml_rs_value e) deny vd = Some v
-              /\ incl (flat_map doc_values vd) (leaves v).
+              /\ incl (flat_map (doc_values false) vd) (leaves v).
 Proof. exact sx_value_accepts_holds. Qed.
 
 (* ---------- examples ---------- *)
@@ -313,7 +320,7 @@ Example C13_example_values :
 Proof. exact sx_values. Qed.
 
 Example C13_example_doc_values :
-  map (flat_map doc_values) sx_docs
+  map (flat_map (doc_values false)) sx_docs
   = [[s "1"; s "hello world"; s "v"; s "w"]; [s "2"; s "x"; s "inner"; s "y"; s "dd"]].
 Proof. exact sx_doc_values. Qed.
 
@@ -356,6 +363,7 @@ Example C13_needs_attrs_plain :
   end = (true, true, true, true, true, true, false, None).
 Proof. exact sx_needs_attrs_plain. Qed.
 
+Print Assumptions C13_data_oriented_sx.
 Print Assumptions C13_adjacent_doc_reading.
 Print Assumptions C13_eforallb_reading.
 Print Assumptions C13_hypotheses_reading.
